@@ -61,7 +61,25 @@ ACCESSORS = {
     'look': (lambda etl, t: 'k' in str(etl.look(t)) and 'a' in str(etl.look(t)), True),
     'lookall': (lambda etl, t: 'v' in str(etl.lookall(t)), True),
     'see': (lambda etl, t: str(etl.see(t)).startswith('k'), True),
+    'look:simple': (lambda etl, t: 'k' in str(etl.look(t, style='simple')) and 'v' in str(etl.look(t, style='simple')), True),
+    'look:minimal': (lambda etl, t: 'k' in str(etl.look(t, style='minimal')), True),
+    'lookall:simple': (lambda etl, t: 'a' in str(etl.lookall(t, style='simple')), True),
+    'lookstr': (lambda etl, t: 'k' in str(etl.lookstr(t)), True),
+    'look:index_header': (lambda etl, t: '0|k' in str(etl.look(t, index_header=True)), True),
+    'repr': (lambda etl, t: 'k' in repr(etl.wrap(t)) and 'k' in str(etl.wrap(t)), True),
+    'repr_html': (lambda etl, t: '<th>k</th>' in etl.wrap(t)._repr_html_(), True),
+    'tohtml': (lambda etl, t: _sunk(etl, lambda s: etl.tohtml(t, s), b'<th>k</th>'), True),
+    'tocsv': (lambda etl, t: _sunk(etl, lambda s: etl.tocsv(t, s), b'k,a,v'), True),
+    'totext': (lambda etl, t: _sunk(etl, lambda s: etl.totext(t, s, encoding='ascii', prologue='P', template='{k}', epilogue='E'),
+                                    b'PE'), True),
+    'tojson': (lambda etl, t: _sunk(etl, lambda s: etl.tojson(t, s), b'[]'), True),
 }
+
+
+def _sunk(etl, write, want):
+    src = etl.MemorySource()
+    write(src)
+    return want in src.getvalue()
 
 
 class C20(Prop):
